@@ -4,6 +4,7 @@ import (
 	"go/constant"
 	"go/token"
 	"go/types"
+	"sort"
 	"strings"
 
 	"golang.org/x/tools/go/ssa"
@@ -342,6 +343,7 @@ func runC04(c *Ctx) {
 	dec := c.fn("netutil", "IPFromReversedAddr")
 	if dec != nil {
 		asciiFoldRule(c, "C04", dec)
+		c04Dispatch(c, dec)
 	}
 	// ---- R2 ----
 	if f := c.fn("netutil", "ipv6FromReversed"); f != nil {
@@ -491,6 +493,8 @@ func runC04(c *Ctx) {
 		}
 		c.check(pa != nil && pa.Call.Args[0] == ssa.Value(f.Params[0]) && okIs4, "C04.v4.parse", f, "IPv4 part parsed by netip.ParseAddr and accepted only if Is4()", pa,
 			"an IPv6 literal in front of in-addr.arpa must be rejected")
+		c.L.Floor("C04.v4.exits", 2)
+		c04V4Exits(c, f, pa)
 	}
 	if f := c.fn("netutil", "reverseIPv4"); f != nil {
 		perm := map[int64]int64{}
@@ -598,6 +602,161 @@ func runC04(c *Ctx) {
 		})
 		c.check(nsuf == 2, "C04.codec-tables", f, "encoder appends the same suffix constants the decoder tests", nil, sprintf("%d uses of arpaV4Suffix/arpaV6Suffix", nsuf))
 	}
+}
+
+// constStrOf resolves a constant string or a constant window of one.
+func constStrOf(v ssa.Value) (string, bool) {
+	if s, ok := core.ConstString(v); ok {
+		return s, true
+	}
+	sl, ok := v.(*ssa.Slice)
+	if !ok {
+		return "", false
+	}
+	s, ok := constStrOf(sl.X)
+	if !ok {
+		return "", false
+	}
+	lo, hi := int64(0), int64(len(s))
+	if sl.Low != nil {
+		if lo, ok = core.ConstInt(sl.Low); !ok {
+			return "", false
+		}
+	}
+	if sl.High != nil {
+		if hi, ok = core.ConstInt(sl.High); !ok {
+			return "", false
+		}
+	}
+	if lo < 0 || hi > int64(len(s)) || lo > hi {
+		return "", false
+	}
+	return s[lo:hi], true
+}
+
+// suffixGuard finds the strings.HasSuffix(x, T) test that must hold at in.
+func suffixGuard(in ssa.Instruction) (x ssa.Value, t string, at ssa.Instruction, ok bool) {
+	for _, g := range core.GuardsOf(in) {
+		cond, truth := core.StripNot(g.Cond, g.Truth)
+		call, isCall := cond.(*ssa.Call)
+		if !isCall || !truth || core.CalleeName(&call.Call) != "strings.HasSuffix" {
+			continue
+		}
+		if s, isK := constStrOf(call.Call.Args[1]); isK {
+			return call.Call.Args[0], s, call, true
+		}
+	}
+	return nil, "", nil, false
+}
+
+// c04Dispatch: the suffix the decoder tests is the suffix the encoder appends,
+// and exactly the tested bytes are cut off before the address part is parsed.
+func c04Dispatch(c *Ctx, dec *ssa.Function) {
+	c.L.Floor("C04.dispatch", 2)
+	for _, sp := range []struct{ callee, suffix string }{{"ipv4FromReversed", ".in-addr.arpa"}, {"ipv6FromReversed", ".ip6.arpa"}} {
+		n := 0
+		for _, ci := range core.AllCalls(dec) {
+			f := ci.Common().StaticCallee()
+			if f == nil || f.Name() != sp.callee {
+				continue
+			}
+			n++
+			what := sprintf("%s(...) only under HasSuffix(name, %q), with exactly those bytes cut", sp.callee, sp.suffix)
+			x, t, _, ok := suffixGuard(ci)
+			if !ok {
+				c.undecided("C04.dispatch", dec, what, ci, "no strings.HasSuffix test with a constant suffix dominates the call")
+				continue
+			}
+			if t != sp.suffix {
+				c.check(false, "C04.dispatch", dec, what, ci, sprintf("the tested suffix is %q but the encoder appends %q: a name whose last label merely ends in the suffix text is decoded", t, sp.suffix))
+				continue
+			}
+			arg := ci.Common().Args[0]
+			if sp.callee == "ipv6FromReversed" {
+				c.check(arg == x, "C04.dispatch", dec, what, ci, "the whole tested name is handed to the fixed-position scanner")
+				continue
+			}
+			sl, isSl := arg.(*ssa.Slice)
+			cut := int64(-1)
+			if isSl && sl.X == x && sl.Low == nil && sl.High != nil {
+				if b, ok := sl.High.(*ssa.BinOp); ok && b.Op == token.SUB {
+					if lc, ok := b.X.(*ssa.Call); ok && core.CalleeName(&lc.Call) == "builtin.len" && lc.Call.Args[0] == x {
+						if k, ok := core.ConstInt(b.Y); ok {
+							cut = k
+						}
+					}
+				}
+			}
+			if cut < 0 {
+				c.undecided("C04.dispatch", dec, what, ci, "the argument is not name[:len(name)-K] of the tested name")
+				continue
+			}
+			c.check(cut == int64(len(t)), "C04.dispatch", dec, what, ci, sprintf("HasSuffix tests %d bytes, %d bytes are cut: a byte is dropped unchecked or left in front of the parser", len(t), cut))
+		}
+		if n == 0 {
+			c.undecided("C04.dispatch", dec, "call of "+sp.callee, nil, "the decoder no longer calls it")
+		}
+	}
+}
+
+// c04V4Exits: ipv4FromReversed may refuse a dotted quad only for the two
+// reasons the codec allows (netip.ParseAddr fails, not IPv4); any further test
+// on the way to the success exit must hold for every canonical length 7..15.
+func c04V4Exits(c *Ctx, f *ssa.Function, pa *ssa.Call) {
+	for _, ret := range core.Returns(f) {
+		if len(ret.Results) != 2 || !core.IsNilConst(ret.Results[1]) {
+			continue
+		}
+		for _, g := range core.GuardsOf(ret) {
+			cond, truth := core.StripNot(g.Cond, g.Truth)
+			what := "test on the way to the accepting exit: " + core.Describe(cond)
+			switch x := cond.(type) {
+			case *ssa.Call:
+				if core.CalleeName(&x.Call) == "(net/netip.Addr).Is4" && truth {
+					c.check(true, "C04.v4.exits", f, what, g.If, "accepts exactly the IPv4 results of ParseAddr")
+					continue
+				}
+			case *ssa.BinOp:
+				if ex, ok := x.X.(*ssa.Extract); ok && pa != nil && ex.Tuple == ssa.Value(pa) && ex.Index == 1 && core.IsNilConst(x.Y) {
+					c.check((x.Op == token.EQL) == truth || (x.Op == token.NEQ) == !truth, "C04.v4.exits", f, what, g.If, "the error of netip.ParseAddr")
+					continue
+				}
+				// a comparison of len(arpa) with a constant
+				if lc, ok := x.X.(*ssa.Call); ok && core.CalleeName(&lc.Call) == "builtin.len" && lc.Call.Args[0] == ssa.Value(f.Params[0]) {
+					if k, ok := core.ConstInt(x.Y); ok {
+						bad := int64(-1)
+						for l := int64(7); l <= 15; l++ {
+							if cmpInt(x.Op, l, k) != truth {
+								bad = l
+								break
+							}
+						}
+						c.check(bad < 0, "C04.v4.exits", f, what, g.If, sprintf("must hold for every canonical length 7..15 (\"0.0.0.0\" .. \"255.255.255.255\"); fails for length %d, so IPToReversedAddr output is refused", bad))
+						continue
+					}
+				}
+			}
+			c.undecided("C04.v4.exits", f, what, g.If, "an additional condition on the accepting path that is neither the ParseAddr error, Is4, nor a length bound: canonical names may be refused")
+		}
+	}
+}
+
+func cmpInt(op token.Token, a, b int64) bool {
+	switch op {
+	case token.EQL:
+		return a == b
+	case token.NEQ:
+		return a != b
+	case token.LSS:
+		return a < b
+	case token.LEQ:
+		return a <= b
+	case token.GTR:
+		return a > b
+	case token.GEQ:
+		return a >= b
+	}
+	return false
 }
 
 func keysInt(m map[int64]bool) []int64 {
@@ -820,6 +979,7 @@ func runC05(c *Ctx) {
 	}
 	if v6 != nil {
 		c05Skeleton(c, v6, 4, true)
+		c05NibbleStart(c, v6)
 	}
 	// ---- caller-side bounds ----
 	if f := c.fn("netutil", "subnetFromReversedV4"); f != nil && v4 != nil {
@@ -980,6 +1140,79 @@ func c05Skeleton(c *Ctx, f *ssa.Function, unit int64, nibbles bool) {
 	})
 	c.check(ip != nil && okStores && n > 0, "C05.skeleton", f, "the address is a zeroed local array written only at the label counter's position", nil,
 		"labels fill the leading octets/nibbles in reverse textual order; all other (host) bits stay zero")
+}
+
+// c05NibbleStart: the nibble scan walks positions start, start-2, ... >= 0 and
+// reads start+1 downwards as dots, so it covers the whole address part exactly
+// when start is even.  The test in front of the loop is evaluated for the three
+// values Go's % can produce (-1, 0, 1): only 0 may reach the loop.
+func c05NibbleStart(c *Ctx, f *ssa.Function) {
+	c.L.Floor("C05.v6.start-parity", 1)
+	var iv *ssa.Phi
+	var head *ssa.BasicBlock
+	for h := range core.LoopHeads(f) {
+		for _, in := range h.Instrs {
+			phi, ok := in.(*ssa.Phi)
+			if !ok {
+				break
+			}
+			if k, ok := stepOf(phi); ok && k == -2 && isIntegerType(phi.Type()) {
+				iv, head = phi, h
+			}
+		}
+	}
+	what := "the nibble scan starts at an even offset (rejects otherwise, also for a negative odd start)"
+	if iv == nil {
+		c.undecided("C05.v6.start-parity", f, what, nil, "no loop counter with step -2 found")
+		return
+	}
+	var start ssa.Value
+	var pre *ssa.BasicBlock
+	for i, e := range iv.Edges {
+		if !head.Dominates(head.Preds[i]) {
+			start, pre = e, head.Preds[i]
+		}
+	}
+	if start == nil {
+		c.undecided("C05.v6.start-parity", f, what, nil, "no entry edge")
+		return
+	}
+	allowed := map[int64]bool{-1: true, 0: true, 1: true}
+	found := false
+	gs := append(core.Guards(pre), core.Guards(head)...)
+	for _, g := range gs {
+		cond, truth := core.StripNot(g.Cond, g.Truth)
+		b, ok := cond.(*ssa.BinOp)
+		if !ok {
+			continue
+		}
+		rem, ok := b.X.(*ssa.BinOp)
+		if !ok || rem.Op != token.REM || rem.X != start {
+			continue
+		}
+		m, okM := core.ConstInt(rem.Y)
+		k, okK := core.ConstInt(b.Y)
+		if !okM || !okK || (m != 2 && m != -2) {
+			continue
+		}
+		found = true
+		for r := range allowed {
+			if cmpInt(b.Op, r, k) != truth {
+				delete(allowed, r)
+			}
+		}
+	}
+	if !found {
+		c.check(false, "C05.v6.start-parity", f, what, iv, "no parity test of the start offset dominates the loop: with an odd start the first byte of the name is never examined")
+		return
+	}
+	var rs []int64
+	for r := range allowed {
+		rs = append(rs, r)
+	}
+	sort.Slice(rs, func(i, j int) bool { return rs[i] < rs[j] })
+	c.check(len(rs) == 1 && rs[0] == 0, "C05.v6.start-parity", f, what, iv,
+		sprintf("start %% 2 values that reach the loop: %v (Go's %% yields -1 for negative odd numbers; start is -1 for a one-byte address part such as \"zip6.arpa\", whose byte is then never examined and the name decodes to ::/0)", rs))
 }
 
 // guardedByParity: in runs only where (l % 2 == 0) == even.
